@@ -35,7 +35,11 @@ CMDS = {
 
 
 class Scenario:
-    def __init__(self, idlers, bursts, done=b'DONE\r\n', pre='') -> None:
+    def __init__(self, idlers, bursts, done=b'DONE\r\n', pre='',
+                 hist='') -> None:
+        # earlier IDLEs of the idling connection itself: D = ended by DONE,
+        # B = ended by another line (answered BAD)
+        self.hist = hist
         self.idlers = idlers
         self.bursts = tuple(bursts)  # one string of command letters per writer
         self.done = done if isinstance(done, bytes) else done.encode()
@@ -44,6 +48,7 @@ class Scenario:
     def name(self):
         return f'{self.idlers}i/' + '+'.join(self.bursts) + \
             (f'/pre={self.pre}' if self.pre else '') + \
+            (f'/hist={self.hist}' if self.hist else '') + \
             ('' if self.done.upper() == b'DONE\r\n' else '/notdone')
 
 
@@ -68,6 +73,12 @@ class Exec:
         for letter in sc.pre:
             for line in CMDS[letter]:
                 assert ctx.do(self.writers[0], line).cond == 'OK'
+        for si in self.idlers:
+            for ch in sc.hist:
+                st = ctx.do(si, b'IDLE')
+                assert st.tagged is None, st.raw
+                st = ctx.more(si, b'DONE\r\n' if ch == 'D' else b'x1 NOOP\r\n')
+                assert st.cond == ('OK' if ch == 'D' else 'BAD'), st.raw
         for si in self.idlers:
             st = ctx.do(si, b'IDLE')
             assert st.tagged is None and any(
@@ -320,6 +331,10 @@ def scenarios(tier):
         for b in letters[:3]:
             S.append((1, (b,), b'DONE\r\n', pre))
     S.append((1, ('AX',), b'WHAT\r\n'))
+    # not the connection's first IDLE
+    for hist in ('D', 'B', 'BD', 'DB'):
+        for b in ('A', 'F', 'X', 'AX'):
+            S.append((1, (b,), b'DONE\r\n', '', hist))
     for b in ('R', 'K', 'RA', 'AR', 'FR', 'RX'):
         S.append((1, (b,)))
     S.append((1, ('R', 'A')))
